@@ -1,63 +1,1154 @@
+// h_c12: correspondence harness for C12 (counter-reset hints returned by queries are sound).
+//
+// Two kinds of cases (corr/CorrC12.v):
+//
+//	chunk cases: a generated sequence of (cut, t, histogram) is appended through the real
+//	  chunkenc.HistogramAppender.AppendHistogram / FloatHistogramAppender.AppendFloatHistogram exactly as
+//	  the head does it (fresh chunk + prev appender on a forced cut, following the returned chunk/appender
+//	  otherwise); every resulting chunk is read back with the real iterator (AtHistogram /
+//	  AtFloatHistogram, fresh or re-used target). Observed: chunk headers, per sample (t, hint, value).
+//	  The model must predict all of it; `holds` is the property on the concatenated read.
+//
+//	query cases: a real tsdb.DB (head, out-of-order head, blocks from head and OOO compaction,
+//	  vertical merges of overlapping blocks, reopen, deletes) is filled with a generated histogram series
+//	  and queried at generated ranges through the queriers DB.Querier builds (block queriers, range head,
+//	  HeadAndOOOQuerier) merged by storage.NewMergeQuerier(ChainedSeriesMerge). Every part querier is
+//	  wrapped so that the samples each source yields are recorded. Observed: per source list, merged
+//	  list (checked equal to what DB.Querier itself returns). The model's chained merge of the source
+//	  lists must give the merged list; `holds` is the property on the merged list.
 package main
 
 import (
 	"context"
 	"fmt"
+	"math"
 	"os"
+	"sort"
+	"strings"
 
 	"github.com/prometheus/prometheus/model/histogram"
 	"github.com/prometheus/prometheus/model/labels"
+	"github.com/prometheus/prometheus/model/value"
+	"github.com/prometheus/prometheus/storage"
+	"github.com/prometheus/prometheus/tsdb"
 	"github.com/prometheus/prometheus/tsdb/chunkenc"
+	"github.com/prometheus/prometheus/tsdb/tombstones"
 
+	"verif/harness/internal/gallina"
+	"verif/harness/internal/gen"
 	"verif/harness/internal/tsdbx"
 )
 
-func mk(c int64) *histogram.Histogram {
+// ---------------------------------------------------------------- Gallina printing
+
+// All values are written as one flat list of numbers per case (variable-length parts prefixed by
+// their length), packed into primitive 63-bit literals; corr/CorrC12.v unpacks and parses it.
+type enc []int64
+
+func (e *enc) n(v int64) { *e = append(*e, v) }
+
+func (e *enc) b(v bool) {
+	if v {
+		e.n(1)
+	} else {
+		e.n(0)
+	}
+}
+
+func (e *enc) bits(f float64) {
+	u := math.Float64bits(f)
+	e.n(int64(u >> 32))
+	e.n(int64(u & 0xffffffff))
+}
+
+func (e *enc) spans(ss []histogram.Span) {
+	e.n(int64(len(ss)))
+	for _, s := range ss {
+		e.n(int64(s.Offset))
+		e.n(int64(s.Length))
+	}
+}
+
+func (e *enc) ints(vs []int64) {
+	e.n(int64(len(vs)))
+	for _, v := range vs {
+		e.n(v)
+	}
+}
+
+func (e *enc) custom(vs []float64) {
+	e.n(int64(len(vs)))
+	for _, v := range vs {
+		e.bits(v)
+	}
+}
+
+// String packs the numbers: zigzag, then base-2^14 digits with a continuation bit (15-bit symbols),
+// four symbols per 63-bit literal (Coq parses literals slowly, so fewer is better).
+func (e enc) String() string {
+	var syms []uint64
+	for _, v := range e {
+		u := uint64(v<<1) ^ uint64(v>>63)
+		for {
+			s := u & 0x3fff
+			u >>= 14
+			if u != 0 {
+				s |= 0x4000
+			}
+			syms = append(syms, s)
+			if u == 0 {
+				break
+			}
+		}
+	}
+	for len(syms)%4 != 0 {
+		syms = append(syms, 0)
+	}
+	var sb strings.Builder
+	sb.WriteByte('[')
+	for i := 0; i < len(syms); i += 4 {
+		if i > 0 {
+			sb.WriteByte(';')
+		}
+		fmt.Fprintf(&sb, "%d", syms[i]|syms[i+1]<<15|syms[i+2]<<30|syms[i+3]<<45)
+	}
+	sb.WriteByte(']')
+	return sb.String()
+}
+
+func floatsAsInts(vs []float64) []int64 {
+	out := make([]int64, len(vs))
+	for i, v := range vs {
+		out[i] = fint(v)
+	}
+	return out
+}
+
+func fint(v float64) int64 {
+	if v != math.Trunc(v) || math.Abs(v) > 1e15 {
+		panic(fmt.Sprintf("non-integral float count %v", v))
+	}
+	return int64(v)
+}
+
+// hist writes an integer histogram (delta buckets).
+func (e *enc) hist(h *histogram.Histogram) {
+	e.n(1)
+	e.n(int64(h.CounterResetHint))
+	e.b(value.IsStaleNaN(h.Sum))
+	e.n(int64(h.Schema))
+	e.bits(h.ZeroThreshold)
+	e.custom(h.CustomValues)
+	e.n(int64(h.Count))
+	e.n(int64(h.ZeroCount))
+	e.spans(h.PositiveSpans)
+	e.spans(h.NegativeSpans)
+	e.ints(h.PositiveBuckets)
+	e.ints(h.NegativeBuckets)
+}
+
+// fhist writes a float histogram (absolute buckets; all counts are integral by construction).
+func (e *enc) fhist(h *histogram.FloatHistogram) {
+	e.n(0)
+	e.n(int64(h.CounterResetHint))
+	e.b(value.IsStaleNaN(h.Sum))
+	e.n(int64(h.Schema))
+	e.bits(h.ZeroThreshold)
+	e.custom(h.CustomValues)
+	e.n(fint(h.Count))
+	e.n(fint(h.ZeroCount))
+	e.spans(h.PositiveSpans)
+	e.spans(h.NegativeSpans)
+	e.ints(floatsAsInts(h.PositiveBuckets))
+	e.ints(floatsAsInts(h.NegativeBuckets))
+}
+
+// obs is one returned sample.
+type obs struct {
+	t  int64
+	h  *histogram.Histogram
+	fh *histogram.FloatHistogram
+}
+
+func (o obs) hint() histogram.CounterResetHint {
+	if o.h != nil {
+		return o.h.CounterResetHint
+	}
+	return o.fh.CounterResetHint
+}
+
+func (o obs) stale() bool {
+	if o.h != nil {
+		return value.IsStaleNaN(o.h.Sum)
+	}
+	return value.IsStaleNaN(o.fh.Sum)
+}
+
+func (e *enc) obs(o obs) {
+	e.n(o.t)
+	if o.h != nil {
+		e.hist(o.h)
+	} else {
+		e.fhist(o.fh)
+	}
+}
+
+func (e *enc) obsList(l []obs) {
+	e.n(int64(len(l)))
+	for _, o := range l {
+		e.obs(o)
+	}
+}
+
+func obsStr(l []obs) string {
+	var e enc
+	e.obsList(l)
+	return e.String()
+}
+
+// ---------------------------------------------------------------- histogram generator
+
+// world is the evolving counter the series reports.
+type world struct {
+	schema int32
+	zth    float64
+	custom []float64
+	zc     int64
+	pos    map[int]int64
+	neg    map[int]int64
+	// layout noise: indices kept as explicit zero buckets
+	zeroPos map[int]bool
+}
+
+func newWorld(r *gen.Rand) *world {
+	w := &world{schema: int32(r.Intn(4)), zth: 0.001, pos: map[int]int64{}, neg: map[int]int64{}, zeroPos: map[int]bool{}}
+	if r.Chance(1, 6) {
+		w.schema = histogram.CustomBucketsSchema
+		w.zth = 0
+		w.custom = []float64{1, 2.5, 5, 10, 25, 50}
+	}
+	w.grow(r)
+	w.grow(r)
+	return w
+}
+
+func (w *world) isCustom() bool { return w.schema == histogram.CustomBucketsSchema }
+
+func (w *world) pickIdx(r *gen.Rand, m map[int]int64) int {
+	if w.isCustom() {
+		return r.Intn(len(w.custom) + 1)
+	}
+	if len(m) > 0 && r.Chance(2, 3) {
+		ks := keys(m)
+		k := ks[r.Intn(len(ks))]
+		return k + int(r.Range(-2, 2))
+	}
+	return int(r.Range(-6, 12))
+}
+
+func keys(m map[int]int64) []int {
+	var ks []int
+	for k := range m {
+		ks = append(ks, k)
+	}
+	sort.Ints(ks)
+	return ks
+}
+
+// grow adds observations (counts only increase; new buckets may appear).
+func (w *world) grow(r *gen.Rand) {
+	n := 1 + r.Intn(3)
+	for i := 0; i < n; i++ {
+		switch {
+		case !w.isCustom() && r.Chance(1, 5):
+			w.zc += r.Range(1, 5)
+		case !w.isCustom() && r.Chance(1, 4):
+			w.neg[w.pickIdx(r, w.neg)] += r.Range(1, 9)
+		default:
+			w.pos[w.pickIdx(r, w.pos)] += r.Range(1, 9)
+		}
+	}
+}
+
+func (w *world) reset(r *gen.Rand) {
+	w.zc = 0
+	w.pos = map[int]int64{}
+	w.neg = map[int]int64{}
+	w.zeroPos = map[int]bool{}
+	w.grow(r)
+}
+
+func buildSide(m map[int]int64, extraZero map[int]bool) ([]histogram.Span, []int64) {
+	idx := map[int]int64{}
+	for k, v := range m {
+		idx[k] = v
+	}
+	for k := range extraZero {
+		if _, ok := idx[k]; !ok {
+			idx[k] = 0
+		}
+	}
+	ks := keys(idx)
+	var spans []histogram.Span
+	var deltas []int64
+	prev := int64(0)
+	last := 0
+	for i, k := range ks {
+		if i == 0 {
+			spans = append(spans, histogram.Span{Offset: int32(k), Length: 1})
+		} else if k == last+1 {
+			spans[len(spans)-1].Length++
+		} else {
+			spans = append(spans, histogram.Span{Offset: int32(k - last - 1), Length: 1})
+		}
+		deltas = append(deltas, idx[k]-prev)
+		prev = idx[k]
+		last = k
+	}
+	return spans, deltas
+}
+
+func (w *world) hist() *histogram.Histogram {
+	h := &histogram.Histogram{Schema: w.schema, ZeroThreshold: w.zth, ZeroCount: uint64(w.zc)}
+	if w.isCustom() {
+		h.CustomValues = append([]float64(nil), w.custom...)
+	}
+	h.PositiveSpans, h.PositiveBuckets = buildSide(w.pos, w.zeroPos)
+	h.NegativeSpans, h.NegativeBuckets = buildSide(w.neg, nil)
+	c := w.zc
+	for _, v := range w.pos {
+		c += v
+	}
+	for _, v := range w.neg {
+		c += v
+	}
+	h.Count = uint64(c)
+	h.Sum = float64(c) * 1.5
+	return h
+}
+
+// event classes steered by the case splits of appendable (and of the proofs).
+var events = []string{"grow", "grow", "grow", "grow", "same", "new-bucket", "reset", "bucket-decrease", "bucket-vanish",
+	"zero-bucket-vanish", "zero-decrease", "schema", "zth", "custom", "stale", "hint-reset", "gauge", "explicit-zero"}
+
+// next evolves the world by one event and returns the histogram to append.
+func (w *world) next(r *gen.Rand, m *gallina.Meta) *histogram.Histogram {
+	ev := events[r.Intn(len(events))]
+	m.Hit("event/" + ev)
+	switch ev {
+	case "grow":
+		w.grow(r)
+	case "same":
+	case "new-bucket":
+		if w.isCustom() {
+			w.pos[r.Intn(len(w.custom)+1)] += r.Range(1, 5)
+		} else {
+			w.pos[int(r.Range(-10, 20))] += r.Range(1, 5)
+		}
+	case "reset":
+		w.reset(r)
+	case "bucket-decrease":
+		// one bucket goes down while the total count goes up
+		if ks := keys(w.pos); len(ks) > 0 {
+			k := ks[r.Intn(len(ks))]
+			if w.pos[k] > 0 {
+				d := r.Range(1, w.pos[k])
+				w.pos[k] -= d
+				w.pos[w.pickIdx(r, w.pos)] += d + r.Range(0, 5)
+			}
+		}
+	case "bucket-vanish":
+		if ks := keys(w.pos); len(ks) > 1 {
+			k := ks[r.Intn(len(ks))]
+			d := w.pos[k]
+			delete(w.pos, k)
+			delete(w.zeroPos, k)
+			k2 := keys(w.pos)[0]
+			w.pos[k2] += d + 1
+		}
+	case "zero-bucket-vanish":
+		w.zeroPos = map[int]bool{}
+		for k, v := range w.pos {
+			if v == 0 {
+				delete(w.pos, k)
+			}
+		}
+	case "zero-decrease":
+		if w.zc > 0 {
+			d := r.Range(1, w.zc)
+			w.zc -= d
+			w.pos[w.pickIdx(r, w.pos)] += d + 1
+		}
+	case "schema":
+		if !w.isCustom() {
+			w.schema = int32((int(w.schema) + 1 + r.Intn(3)) % 4)
+			if r.Bool() {
+				w.grow(r)
+			}
+		}
+	case "zth":
+		if !w.isCustom() {
+			w.zth = []float64{0.001, 0.002, 0.0005}[r.Intn(3)]
+			w.grow(r)
+		}
+	case "custom":
+		if w.isCustom() {
+			if len(w.custom) == 6 {
+				w.custom = []float64{1, 2.5, 5, 10, 25, 50, 100}
+			} else {
+				w.custom = []float64{1, 2.5, 5, 10, 25, 50}
+				delete(w.pos, 7)
+				delete(w.zeroPos, 7)
+			}
+			w.grow(r)
+		}
+	case "stale":
+		return &histogram.Histogram{Sum: math.Float64frombits(value.StaleNaN)}
+	case "hint-reset":
+		w.grow(r)
+		h := w.hist()
+		h.CounterResetHint = histogram.CounterReset
+		return h
+	case "gauge":
+		h := w.hist()
+		h.CounterResetHint = histogram.GaugeType
+		return h
+	case "explicit-zero":
+		if !w.isCustom() {
+			w.zeroPos[w.pickIdx(r, w.pos)] = true
+		} else {
+			w.zeroPos[r.Intn(len(w.custom)+1)] = true
+		}
+	}
+	return w.hist()
+}
+
+// ---------------------------------------------------------------- chunk cases
+
+type chunkOp struct {
+	Cut bool   `json:"cut"`
+	T   int64  `json:"t"`
+	H   string `json:"h"`
+}
+
+type chunkDesc struct {
+	Shape string     `json:"shape"`
+	Kind  string     `json:"kind"`
+	Read  string     `json:"read"`
+	Ops   []chunkOp  `json:"ops"`
+	Ivs   [][2]int64 `json:"deleted"`
+}
+
+type hop struct {
+	cut bool
+	t   int64
+	h   *histogram.Histogram
+}
+
+func headerCode(c chunkenc.CounterResetHeader) int {
+	switch c {
+	case chunkenc.CounterReset:
+		return 1
+	case chunkenc.NotCounterReset:
+		return 2
+	case chunkenc.GaugeType:
+		return 3
+	}
+	return 0
+}
+
+// appendAll mirrors memSeries.appendHistogram / appendFloatHistogram: on a forced cut a fresh chunk is
+// created and the old appender is passed as prev; otherwise the returned chunk replaces (recoded) or
+// follows (new chunk) the current one.
+func appendAll(float bool, ops []hop) []chunkenc.Chunk {
+	var chks []chunkenc.Chunk
+	var app chunkenc.Appender
+	for _, op := range ops {
+		var prev chunkenc.Appender
+		if app == nil || op.cut {
+			prev = app
+			var c chunkenc.Chunk
+			if float {
+				c = chunkenc.NewFloatHistogramChunk()
+			} else {
+				c = chunkenc.NewHistogramChunk()
+			}
+			a, err := c.Appender()
+			if err != nil {
+				panic(err)
+			}
+			chks = append(chks, c)
+			app = a
+		}
+		var nc chunkenc.Chunk
+		var recoded bool
+		var err error
+		if float {
+			nc, recoded, app, err = app.AppendFloatHistogram(prev, 0, op.t, op.h.ToFloat(nil), false)
+		} else {
+			nc, recoded, app, err = app.AppendHistogram(prev, 0, op.t, op.h.Copy(), false)
+		}
+		if err != nil {
+			panic(err)
+		}
+		if nc != nil {
+			if recoded {
+				chks[len(chks)-1] = nc
+			} else {
+				chks = append(chks, nc)
+			}
+		}
+	}
+	return chks
+}
+
+func readChunk(c chunkenc.Chunk, mode int) []obs { return readIter(c.Iterator(nil), mode) }
+
+func readIter(it chunkenc.Iterator, mode int) []obs {
+	var out []obs
+	var reuseH *histogram.Histogram
+	var reuseFH *histogram.FloatHistogram
+	for vt := it.Next(); vt != chunkenc.ValNone; vt = it.Next() {
+		switch {
+		case vt == chunkenc.ValHistogram && mode == 0:
+			t, h := it.AtHistogram(nil)
+			out = append(out, obs{t: t, h: h.Copy()})
+		case vt == chunkenc.ValHistogram && mode == 1:
+			if reuseH == nil {
+				reuseH = &histogram.Histogram{}
+			}
+			t, h := it.AtHistogram(reuseH)
+			out = append(out, obs{t: t, h: h.Copy()})
+		case mode == 2 || mode == 0:
+			t, fh := it.AtFloatHistogram(nil)
+			out = append(out, obs{t: t, fh: fh.Copy()})
+		default:
+			if reuseFH == nil {
+				reuseFH = &histogram.FloatHistogram{}
+			}
+			t, fh := it.AtFloatHistogram(reuseFH)
+			out = append(out, obs{t: t, fh: fh.Copy()})
+		}
+	}
+	if it.Err() != nil {
+		panic(it.Err())
+	}
+	return out
+}
+
+// readDeleted reads the chunks the way populateWithDelSeriesIterator does: a chunk that overlaps
+// deletion intervals (tombstones, or the intervals the query range is trimmed with) goes through the
+// real tsdb.DeletedIterator holding exactly the overlapping intervals, any other chunk is read with
+// its bare iterator.
+func readDeleted(chks []chunkenc.Chunk, ivs [][2]int64, mode int) []obs {
+	var out []obs
+	for _, c := range chks {
+		plain := readChunk(c, 0)
+		if len(plain) == 0 {
+			continue
+		}
+		lo, hi := plain[0].t, plain[len(plain)-1].t
+		var over tombstones.Intervals
+		for _, iv := range ivs {
+			if iv[0] <= hi && lo <= iv[1] {
+				over = over.Add(tombstones.Interval{Mint: iv[0], Maxt: iv[1]})
+			}
+		}
+		if len(over) == 0 {
+			out = append(out, readChunk(c, mode)...)
+			continue
+		}
+		out = append(out, readIter(&tsdb.DeletedIterator{Iter: c.Iterator(nil), Intervals: over}, mode)...)
+	}
+	return out
+}
+
+func chunkHeader(c chunkenc.Chunk) int {
+	switch x := c.(type) {
+	case *chunkenc.HistogramChunk:
+		return headerCode(x.GetCounterResetHeader())
+	case *chunkenc.FloatHistogramChunk:
+		return headerCode(x.GetCounterResetHeader())
+	}
+	panic("unexpected chunk type")
+}
+
+func emitChunkCase(cf *gallina.CaseFile, m *gallina.Meta, id int, float bool, mode int, ops []hop, ivs [][2]int64, shape string) {
+	chks := appendAll(float, ops)
+	desc := chunkDesc{Shape: shape, Kind: map[bool]string{false: "int", true: "float"}[float], Read: fmt.Sprint(mode)}
+	var e enc
+	e.n(0)
+	e.n(int64(id))
+	e.b(float)
+	e.n(int64(len(ops)))
+	for _, op := range ops {
+		e.b(op.cut)
+		e.n(op.t)
+		if float {
+			e.fhist(op.h.ToFloat(nil))
+		} else {
+			e.hist(op.h)
+		}
+		desc.Ops = append(desc.Ops, chunkOp{op.cut, op.t, op.h.String()})
+	}
+	nonFirst := 0
+	e.n(int64(len(chks)))
+	for _, c := range chks {
+		o := readChunk(c, mode)
+		if len(o) > 1 {
+			nonFirst += len(o) - 1
+		}
+		e.n(int64(chunkHeader(c)))
+		e.obsList(o)
+	}
+	e.n(int64(len(ivs)))
+	for _, iv := range ivs {
+		e.n(iv[0])
+		e.n(iv[1])
+	}
+	dobs := readDeleted(chks, ivs, mode)
+	e.obsList(dobs)
+	desc.Ivs = ivs
+	m.Hit(fmt.Sprintf("chunk/intervals=%d", len(ivs)))
+	for i, o := range dobs {
+		if i == 0 && !o.stale() && o.hint() == histogram.NotCounterReset {
+			m.Hit("chunk/deleted-read-first-marked")
+		}
+	}
+	m.Hit(fmt.Sprintf("chunk/%s/chunks=%s", desc.Kind, bucket(len(chks))))
+	cf.Add(e.String())
+	m.Case(id, desc)
+	if len(chks) > 1 && nonFirst > 0 {
+		m.Nontrivial++
+	}
+}
+
+func bucket(n int) string {
+	switch {
+	case n <= 1:
+		return fmt.Sprint(n)
+	case n <= 3:
+		return "2-3"
+	case n <= 7:
+		return "4-7"
+	}
+	return "8+"
+}
+
+func genChunkCase(r *gen.Rand, m *gallina.Meta) (bool, int, []hop, [][2]int64) {
+	w := newWorld(r)
+	n := 2 + r.Intn(14)
+	var ops []hop
+	t := r.Range(-500, 500)
+	for i := 0; i < n; i++ {
+		t += r.Range(1, 50)
+		ops = append(ops, hop{cut: r.Chance(1, 8), t: t, h: w.next(r, m)})
+	}
+	float := r.Chance(1, 3)
+	mode := r.Intn(4)
+	// deletion intervals: tombstones around sample timestamps and/or a query window
+	var ivs [][2]int64
+	pickT := func() int64 { return ops[r.Intn(len(ops))].t + r.PickI64(0, 0, 1, -1) }
+	if r.Chance(1, 2) {
+		ivs = append(ivs, [2]int64{math.MinInt64, pickT() - 1}) // trimFront: mint-1
+	}
+	if r.Chance(1, 3) {
+		ivs = append(ivs, [2]int64{pickT() + 1, math.MaxInt64}) // trimBack: maxt+1
+	}
+	for k := r.Intn(3); k > 0; k-- {
+		lo := pickT()
+		ivs = append(ivs, [2]int64{lo, lo + r.PickI64(0, 0, 10, 60)})
+	}
+	return float, mode, ops, ivs
+}
+
+// ---------------------------------------------------------------- query cases (real DB)
+
+// tee wrappers: record what every part querier yields for the series.
+type teeQuerier struct {
+	storage.Querier
+	rec *[][]obs
+}
+
+func (q *teeQuerier) Select(ctx context.Context, sorted bool, hints *storage.SelectHints, ms ...*labels.Matcher) storage.SeriesSet {
+	return &teeSet{SeriesSet: q.Querier.Select(ctx, sorted, hints, ms...), rec: q.rec}
+}
+
+type teeSet struct {
+	storage.SeriesSet
+	rec *[][]obs
+}
+
+func (s *teeSet) At() storage.Series { return &teeSeries{Series: s.SeriesSet.At(), rec: s.rec} }
+
+type teeSeries struct {
+	storage.Series
+	rec *[][]obs
+}
+
+func (s *teeSeries) Iterator(chunkenc.Iterator) chunkenc.Iterator {
+	*s.rec = append(*s.rec, nil)
+	return &teeIter{Iterator: s.Series.Iterator(nil), rec: s.rec, slot: len(*s.rec) - 1, lastT: math.MinInt64}
+}
+
+type teeIter struct {
+	chunkenc.Iterator
+	rec   *[][]obs
+	slot  int
+	lastT int64
+	any   bool
+}
+
+func (it *teeIter) record(vt chunkenc.ValueType) {
+	if vt == chunkenc.ValNone {
+		return
+	}
+	t := it.Iterator.AtT()
+	if it.any && t == it.lastT {
+		return
+	}
+	it.any, it.lastT = true, t
+	switch vt {
+	case chunkenc.ValHistogram:
+		_, h := it.Iterator.AtHistogram(nil)
+		(*it.rec)[it.slot] = append((*it.rec)[it.slot], obs{t: t, h: h.Copy()})
+	case chunkenc.ValFloatHistogram:
+		_, fh := it.Iterator.AtFloatHistogram(nil)
+		(*it.rec)[it.slot] = append((*it.rec)[it.slot], obs{t: t, fh: fh.Copy()})
+	default:
+		panic("float sample in a histogram series")
+	}
+}
+
+func (it *teeIter) Next() chunkenc.ValueType {
+	vt := it.Iterator.Next()
+	it.record(vt)
+	return vt
+}
+
+func (it *teeIter) Seek(t int64) chunkenc.ValueType {
+	vt := it.Iterator.Seek(t)
+	it.record(vt)
+	return vt
+}
+
+var lset = labels.FromStrings("a", "b")
+
+func drain(q storage.Querier) []obs {
+	ss := q.Select(context.Background(), true, nil, tsdbx.MatchEq("a", "b"))
+	var out []obs
+	n := 0
+	for ss.Next() {
+		n++
+		it := ss.At().Iterator(nil)
+		for vt := it.Next(); vt != chunkenc.ValNone; vt = it.Next() {
+			switch vt {
+			case chunkenc.ValHistogram:
+				t, h := it.AtHistogram(nil)
+				out = append(out, obs{t: t, h: h.Copy()})
+			case chunkenc.ValFloatHistogram:
+				t, fh := it.AtFloatHistogram(nil)
+				out = append(out, obs{t: t, fh: fh.Copy()})
+			default:
+				panic("float sample in a histogram series")
+			}
+		}
+		if it.Err() != nil {
+			panic(it.Err())
+		}
+	}
+	if ss.Err() != nil {
+		panic(ss.Err())
+	}
+	if n > 1 {
+		panic("more than one series")
+	}
+	return out
+}
+
+// parts rebuilds the list of queriers DB.Querier merges (same calls, same order), each wrapped in a tee.
+func parts(db *tsdb.DB, mint, maxt int64, rec *[][]obs) []storage.Querier {
+	var out []storage.Querier
+	head := db.Head()
+	overlapsOOO := mint <= head.MaxOOOTime() && head.MinOOOTime() <= maxt
+	var headQ storage.Querier
+	inoMint := max(head.MinTime(), mint)
+	if maxt >= head.MinTime() || overlapsOOO {
+		var err error
+		headQ, err = tsdb.NewBlockQuerier(tsdb.NewRangeHead(head, mint, maxt), mint, maxt)
+		if err != nil {
+			panic(err)
+		}
+		shouldClose, getNew, newMint := head.IsQuerierCollidingWithTruncation(mint, maxt)
+		if shouldClose || getNew {
+			panic(fmt.Sprint("unexpected truncation collision ", newMint))
+		}
+	}
+	if overlapsOOO {
+		headQ = tsdb.NewHeadAndOOOQuerier(inoMint, mint, maxt, head, db.VerifC12OOOIsoState(), headQ)
+	}
+	if headQ != nil {
+		out = append(out, &teeQuerier{Querier: headQ, rec: rec})
+	}
+	for _, b := range db.Blocks() {
+		if b.OverlapsClosedInterval(mint, maxt) {
+			q, err := tsdb.NewBlockQuerier(b, mint, maxt)
+			if err != nil {
+				panic(err)
+			}
+			out = append(out, &teeQuerier{Querier: q, rec: rec})
+		}
+	}
+	return out
+}
+
+func sameObs(a, b []obs) bool {
+	if len(a) != len(b) {
+		return false
+	}
+	for i := range a {
+		if obsStr(a[i:i+1]) != obsStr(b[i:i+1]) {
+			return false
+		}
+	}
+	return true
+}
+
+type dbOp struct {
+	Op   string `json:"op"`
+	T    int64  `json:"t,omitempty"`
+	T2   int64  `json:"t2,omitempty"`
+	H    string `json:"h,omitempty"`
+	Kind string `json:"kind,omitempty"`
+	Res  string `json:"res,omitempty"`
+}
+
+type queryDesc struct {
+	Shape string `json:"shape"`
+	Opts  string `json:"opts"`
+	Ops   []dbOp `json:"ops"`
+	Mint  int64  `json:"mint"`
+	Maxt  int64  `json:"maxt"`
+	Srcs  int    `json:"sources"`
+	N     int    `json:"returned"`
+}
+
+type delIv struct{ lo, hi int64 }
+
+type dbRun struct {
+	db      *tsdbx.DB
+	ops     []dbOp
+	opts    tsdbx.Options
+	shadow  map[int64]bool // accepted sample timestamps
+	deletes []delIv
+}
+
+func (d *dbRun) appendOne(t int64, h *histogram.Histogram, float bool) {
+	app := d.db.DB.Appender(context.Background())
+	var err error
+	kind := "int"
+	if float {
+		kind = "float"
+		_, err = app.AppendHistogram(0, lset, t, nil, h.ToFloat(nil))
+	} else {
+		_, err = app.AppendHistogram(0, lset, t, h.Copy(), nil)
+	}
+	res := "ok"
+	if err != nil {
+		res = tsdbx.Kind(err).String()
+		if e := app.Rollback(); e != nil {
+			panic(e)
+		}
+	} else {
+		if e := app.Commit(); e != nil {
+			panic(e)
+		}
+		d.shadow[t] = true
+	}
+	d.ops = append(d.ops, dbOp{Op: "append", T: t, H: h.String(), Kind: kind, Res: res})
+}
+
+func (d *dbRun) do(op string, f func() error) {
+	res := "ok"
+	if err := f(); err != nil {
+		res = "error: " + err.Error()
+	}
+	d.ops = append(d.ops, dbOp{Op: op, Res: res})
+}
+
+func (d *dbRun) deleted(t int64) bool {
+	for _, iv := range d.deletes {
+		if iv.lo <= t && t <= iv.hi {
+			return true
+		}
+	}
+	return false
+}
+
+const (
+	shapeFirst   = "first-sample-of-range-restricted-result"
+	shapeDeleted = "sample-after-deleted-chunk-start"
+)
+
+// query emits one query case.
+func (d *dbRun) query(cf *gallina.CaseFile, m *gallina.Meta, id int, mint, maxt int64) {
+	var rec [][]obs
+	ps := parts(d.db.DB, mint, maxt, &rec)
+	var merged []obs
+	if len(ps) > 0 {
+		mq := storage.NewMergeQuerier(ps, nil, storage.ChainedSeriesMerge)
+		merged = drain(mq)
+		if err := mq.Close(); err != nil {
+			panic(err)
+		}
+	}
+	// the same query through DB.Querier itself
+	q, err := d.db.DB.Querier(mint, maxt)
+	if err != nil {
+		panic(err)
+	}
+	direct := drain(q)
+	if err := q.Close(); err != nil {
+		panic(err)
+	}
+	if !sameObs(merged, direct) {
+		panic(fmt.Sprintf("harness-built merge differs from DB.Querier for [%d,%d]:\n%s\n%s", mint, maxt, obsStr(merged), obsStr(direct)))
+	}
+	shape := "query"
+	// classes that match the recorded findings (decided on inputs and hints only, not on soundness)
+	if len(direct) > 0 && !direct[0].stale() && direct[0].hint() == histogram.NotCounterReset {
+		before := false
+		for t := range d.shadow {
+			if t < mint && !d.deleted(t) {
+				before = true
+			}
+		}
+		if before {
+			shape = shapeFirst
+		} else {
+			shape = shapeDeleted
+		}
+	}
+	if shape == "query" {
+		for j := 1; j < len(direct); j++ {
+			if direct[j].stale() || direct[j].hint() != histogram.NotCounterReset {
+				continue
+			}
+			for t := range d.shadow {
+				if direct[j-1].t < t && t < direct[j].t && d.deleted(t) {
+					shape = shapeDeleted
+				}
+			}
+		}
+	}
+	var e enc
+	e.n(1)
+	e.n(int64(id))
+	e.n(int64(len(rec)))
+	for _, s := range rec {
+		e.obsList(s)
+	}
+	e.obsList(direct)
+	cf.Add(e.String())
+	m.Case(id, queryDesc{Shape: shape, Opts: fmt.Sprintf("%+v", d.opts), Ops: d.ops, Mint: mint, Maxt: maxt, Srcs: len(rec), N: len(direct)})
+	m.Hit("query/sources=" + bucket(len(rec)))
+	m.Hit("query/shape=" + shape)
+	nr := 0
+	for _, o := range direct {
+		if !o.stale() && o.hint() == histogram.NotCounterReset {
+			nr++
+		}
+	}
+	m.Hit("query/not-reset=" + bucket(nr))
+	if len(rec) > 1 || nr > 0 {
+		m.Nontrivial++
+	}
+}
+
+func openRun(base string, o tsdbx.Options) *dbRun {
+	dir, err := os.MkdirTemp(base, "db")
+	if err != nil {
+		panic(err)
+	}
+	db, err := tsdbx.Open(dir, o)
+	if err != nil {
+		panic(err)
+	}
+	return &dbRun{db: db, opts: o, shadow: map[int64]bool{}}
+}
+
+func (d *dbRun) close() {
+	d.db.DB.Close()
+	os.RemoveAll(d.db.Dir)
+}
+
+// genDB runs one generated history and emits its query cases; returns the next free id.
+func genDB(r *gen.Rand, cf *gallina.CaseFile, m *gallina.Meta, base string, id int, nq int) int {
+	o := tsdbx.Options{BlockRange: r.PickI64(1000, 2000, 5000), Overlapping: true}
+	if r.Chance(3, 4) {
+		o.OOOWindow = 20 * o.BlockRange
+		o.OOOCapMax = r.PickI64(4, 6, 32)
+	}
+	d := openRun(base, o)
+	defer d.close()
+	w := newWorld(r)
+	float := r.Chance(1, 4)
+	n := 8 + r.Intn(30)
+	type pend struct {
+		t int64
+		h *histogram.Histogram
+	}
+	var held []pend
+	var ts []int64
+	t := int64(0)
+	allowDelete := r.Chance(1, 6)
+	for i := 0; i < n; i++ {
+		t += r.Range(20, 200)
+		h := w.next(r, m)
+		if h.CounterResetHint == histogram.GaugeType && !r.Chance(1, 4) {
+			h.CounterResetHint = histogram.UnknownCounterReset
+		}
+		ts = append(ts, t)
+		if o.OOOWindow > 0 && r.Chance(1, 5) {
+			held = append(held, pend{t, h})
+		} else {
+			if r.Chance(1, 25) {
+				float = !float
+			}
+			d.appendOne(t, h, float)
+		}
+		if len(held) > 0 && r.Chance(1, 4) {
+			k := r.Intn(len(held))
+			d.appendOne(held[k].t, held[k].h, float)
+			held = append(held[:k], held[k+1:]...)
+		}
+		switch r.Intn(40) {
+		case 0, 1:
+			d.do("compact", d.db.Compact)
+		case 2, 3:
+			d.do("compact-ooo", d.db.CompactOOOHead)
+		case 4:
+			d.do("reopen", d.db.Reopen)
+		case 5:
+			if bs := d.db.Blocks(); len(bs) >= 2 && !d.db.Compactable() {
+				k := r.Intn(len(bs) - 1)
+				d.do("merge-blocks", func() error { return d.db.MergeBlocks([]string{bs[k].ULID, bs[k+1].ULID}) })
+			}
+		case 6:
+			if allowDelete && len(ts) > 2 {
+				lo := ts[r.Intn(len(ts))]
+				hi := lo + r.Range(0, 150)
+				d.deletes = append(d.deletes, delIv{lo, hi})
+				d.ops = append(d.ops, dbOp{Op: "delete", T: lo, T2: hi})
+				if err := d.db.Delete(lo, hi, tsdbx.MatchEq("a", "b")); err != nil {
+					panic(err)
+				}
+			}
+		}
+	}
+	for _, p := range held {
+		d.appendOne(p.t, p.h, float)
+	}
+	if r.Chance(1, 3) {
+		d.do("compact-ooo", d.db.CompactOOOHead)
+	}
+	for k := 0; k < nq; k++ {
+		var mint, maxt int64
+		switch {
+		case k == 0:
+			mint, maxt = math.MinInt64, math.MaxInt64
+		default:
+			mint = ts[r.Intn(len(ts))] + r.PickI64(0, 0, 1, -1, 7)
+			maxt = mint + r.Range(0, 3000)
+			if r.Chance(1, 3) {
+				maxt = math.MaxInt64
+			}
+		}
+		d.query(cf, m, id, mint, maxt)
+		id++
+	}
+	return id
+}
+
+// ---------------------------------------------------------------- corpus
+
+func mkH(c int64) *histogram.Histogram {
 	return &histogram.Histogram{Schema: 0, Count: uint64(c), Sum: float64(c), ZeroThreshold: 0.001,
 		PositiveSpans: []histogram.Span{{Offset: 0, Length: 1}}, PositiveBuckets: []int64{c}}
 }
 
-func dump(db *tsdbx.DB, mint, maxt int64) {
-	q, err := db.DB.Querier(mint, maxt)
-	if err != nil {
-		panic(err)
-	}
-	defer q.Close()
-	ss := q.Select(context.Background(), true, nil, labels.MustNewMatcher(labels.MatchEqual, "a", "b"))
-	for ss.Next() {
-		it := ss.At().Iterator(nil)
-		for it.Next() == chunkenc.ValHistogram {
-			t, h := it.AtHistogram(nil)
-			fmt.Printf("  t=%d count=%d hint=%d\n", t, h.Count, h.CounterResetHint)
+// corpus: fixed reproducers first.
+func corpus(cf *gallina.CaseFile, m *gallina.Meta, base string, id int) int {
+	// chunk level: growth, new bucket (recode), reset, bucket vanishing, zero bucket vanishing, stale, cut
+	h1 := &histogram.Histogram{Schema: 1, ZeroThreshold: 0.001, ZeroCount: 1, Count: 6, Sum: 1,
+		PositiveSpans: []histogram.Span{{Offset: 0, Length: 2}}, PositiveBuckets: []int64{2, 1}}
+	h2 := &histogram.Histogram{Schema: 1, ZeroThreshold: 0.001, ZeroCount: 1, Count: 9, Sum: 1,
+		PositiveSpans: []histogram.Span{{Offset: 0, Length: 2}, {Offset: 2, Length: 1}}, PositiveBuckets: []int64{3, 0, -1}}
+	h3 := &histogram.Histogram{Schema: 1, ZeroThreshold: 0.001, ZeroCount: 1, Count: 10, Sum: 1,
+		PositiveSpans: []histogram.Span{{Offset: 0, Length: 1}, {Offset: 3, Length: 1}}, PositiveBuckets: []int64{7, -5}}
+	h4 := &histogram.Histogram{Schema: 1, ZeroThreshold: 0.001, ZeroCount: 2, Count: 12, Sum: 1,
+		PositiveSpans: []histogram.Span{{Offset: 0, Length: 2}, {Offset: 2, Length: 1}}, PositiveBuckets: []int64{3, 1, -1}}
+	st := &histogram.Histogram{Sum: math.Float64frombits(value.StaleNaN)}
+	seq := []hop{{false, 10, h1}, {false, 20, h2}, {false, 30, h3}, {false, 40, h4}, {true, 50, h4}, {false, 60, st}, {false, 70, st}, {false, 80, h4}, {false, 90, h1}}
+	for _, fl := range []bool{false, true} {
+		for mode := 0; mode < 4; mode += 3 {
+			emitChunkCase(cf, m, id, fl, mode, seq, [][2]int64{{math.MinInt64, 19}, {35, 45}, {85, math.MaxInt64}}, "chunk-corpus")
+			id++
 		}
 	}
+	// query level: the recorded finding (five counter histograms at 1000..5000, query [3000,10000])
+	d := openRun(base, tsdbx.Options{BlockRange: 100000})
+	for i, c := range []int64{10, 20, 30, 40, 50} {
+		d.appendOne(int64(1000*(i+1)), mkH(c), false)
+	}
+	d.query(cf, m, id, math.MinInt64, math.MaxInt64)
+	d.query(cf, m, id+1, 3000, 10000)
+	d.query(cf, m, id+2, 1000, 10000)
+	id += 3
+	d.close()
+	// query level: a tombstone over the first sample of the second chunk
+	d = openRun(base, tsdbx.Options{BlockRange: 100000})
+	for i, c := range []int64{10, 20, 5, 6, 7} {
+		d.appendOne(int64(1000*(i+1)), mkH(c), false)
+	}
+	d.deletes = append(d.deletes, delIv{2500, 3500})
+	d.ops = append(d.ops, dbOp{Op: "delete", T: 2500, T2: 3500})
+	if err := d.db.Delete(2500, 3500, tsdbx.MatchEq("a", "b")); err != nil {
+		panic(err)
+	}
+	d.query(cf, m, id, math.MinInt64, math.MaxInt64)
+	id++
+	d.close()
+	return id
 }
 
 func main() {
-	dir, _ := os.MkdirTemp("", "c12")
-	defer os.RemoveAll(dir)
-	db, err := tsdbx.Open(dir, tsdbx.Options{BlockRange: 100000})
+	f := gallina.ParseFlags()
+	m := gallina.NewMeta("C12", f.Seed, f.Tier)
+	m.Rule = "chunk cases: more than one chunk and at least one non-first sample; query cases: more than one source or at least one returned sample marked NotCounterReset"
+	cf := &gallina.CaseFile{Dir: f.Out,
+		Preamble: "From Coq Require Import List ZArith Uint63.\nFrom Verif Require Import corr.CorrC12.\nImport ListNotations.\nOpen Scope uint63_scope.\n",
+		Type:     "list int", Footer: gallina.StdFooter, PerShard: 100}
+	base, err := os.MkdirTemp(f.Out, "scratch")
 	if err != nil {
 		panic(err)
 	}
-	lb := labels.FromStrings("a", "b")
-	app := db.DB.Appender(context.Background())
-	for i, c := range []int64{10, 20, 5, 6, 7} {
-		if _, err := app.AppendHistogram(0, lb, int64(1000*(i+1)), mk(c), nil); err != nil {
-			panic(err)
-		}
+	defer os.RemoveAll(base)
+
+	id := corpus(cf, m, base, 0)
+	nChunk := f.Count(110, 4000)
+	nDB := f.Count(24, 1000)
+	for i := 0; i < nChunk; i++ {
+		r := gen.Fork(f.Seed, id)
+		fl, mode, ops, ivs := genChunkCase(r, m)
+		emitChunkCase(cf, m, id, fl, mode, ops, ivs, "chunk")
+		id++
 	}
-	if err := app.Commit(); err != nil {
-		panic(err)
+	for i := 0; i < nDB; i++ {
+		r := gen.Fork(f.Seed, id)
+		id = genDB(r, cf, m, base, id, 6)
 	}
-	fmt.Println("full")
-	dump(db, 0, 10000)
-	fmt.Println("range 4000..")
-	dump(db, 4000, 10000)
-	if err := db.DB.Delete(context.Background(), 2500, 3500, labels.MustNewMatcher(labels.MatchEqual, "a", "b")); err != nil {
-		panic(err)
-	}
-	fmt.Println("after delete [2500,3500] (head)")
-	dump(db, 0, 10000)
-	db.DB.Close()
+	cf.Flush()
+	m.Evaluations = id
+	m.Write(f.Out)
 }
